@@ -42,7 +42,12 @@ type Case struct {
 	// "moving" = the harness's tracking allocator in pointer-moving mode (every growing append hands back a new
 	// pointer object and retires the old one, which then reads as poison)
 	Alloc string `json:"alloc,omitempty"`
+	// FrameHandler: the receiving application also installed OnDataFrame (every data frame is handed over as
+	// well, in a buffer of its own); the messages must arrive exactly as without it
+	FrameHandler bool `json:"frame_handler,omitempty"`
 }
+
+var frameHandlerOn bool
 
 var inline = func(f func()) { f() }
 
@@ -72,6 +77,13 @@ func newConn(client bool, compress bool, level int, frameLimit int, conn *vlib.F
 		u.OnMessage(func(c *websocket.Conn, mt websocket.MessageType, data []byte) {
 			*sink = append(*sink, got{mt, append([]byte(nil), data...)})
 		})
+		if frameHandlerOn {
+			u.OnDataFrame(func(c *websocket.Conn, mt websocket.MessageType, fin bool, data []byte) {
+				for i := range data {
+					data[i] = 0xEE // the frame buffer is the handler's: scribbling over it must not reach the message
+				}
+			})
+		}
 	}
 	var c *websocket.Conn
 	if client {
@@ -308,6 +320,10 @@ func runCaseInner(c Case) vlib.Result {
 	// receiver
 	var gotMsgs []got
 	rconn := &vlib.FakeConn{}
+	frameHandlerOn = c.FrameHandler
+	if c.FrameHandler {
+		res.Classes = append(res.Classes, "receiver with OnMessage and OnDataFrame")
+	}
 	receiver, _ := newConn(!c.SenderClient, c.Compress, c.Level, c.FrameLimit, rconn, &gotMsgs, c.Alloc)
 	for si, s := range segments(c, wire) {
 		cp := append([]byte(nil), s...)
@@ -389,6 +405,7 @@ func gen(big int) func(t *rapid.T) Case {
 		c.Compress = rapid.Bool().Draw(t, "compress")
 		c.Level = rapid.IntRange(-2, 9).Draw(t, "level")
 		c.Alloc = rapid.SampledFrom([]string{"", "", "aligned", "moving"}).Draw(t, "alloc")
+		c.FrameHandler = rapid.IntRange(0, 3).Draw(t, "framehandler") == 0
 		c.FrameLimit = rapid.SampledFrom([]int{1, 2, 125, 126, 1024, 32768}).Draw(t, "framelimit")
 		c.Masked = c.SenderClient
 		if c.Pipeline == "ref-nbio" && rapid.IntRange(0, 5).Draw(t, "flipmask") == 0 {
